@@ -209,11 +209,20 @@ def whole_run(seed, nphases=3):
         api.measurements.last = 10 + i
         import time
         time.sleep(0.5)
-        for k, (name, val) in sorted(latest.items()):
+        for k, (name, val, dval) in sorted(latest.items()):
           if name == 'ph%d' % i and val != 10 + i:
             probes.append('a watcher looping on snapshot-then-wait is left with a stale view of a measurement')
+        # the same for a dimensioned measurement whose coordinate is overridden (the override also logs a warning)
+        api.measurements.ld[0] = 1
+        time.sleep(0.5)
+        api.measurements.ld[0] = 20 + i
+        time.sleep(0.5)
+        for k, (name, val, dval) in sorted(latest.items()):
+          if name == 'ph%d' % i and [list(x) for x in (dval or [])] != [[0, 20 + i]]:
+            probes.append('a watcher looping on snapshot-then-wait is left with a stale view of an overridden '
+                          'dimensioned measurement')
       body.__name__ = 'ph%d' % i
-      return htf.measures(htf.Measurement('m'), htf.Measurement('last'))(
+      return htf.measures(htf.Measurement('m'), htf.Measurement('last'), htf.Measurement('ld').with_dimensions('x'))(
           htf.PhaseOptions(name='ph%d' % i, requires_state=True)(body))
     test = htf.Test(*[mk(i) for i in range(nphases)])
     latest = {}
@@ -238,7 +247,8 @@ def whole_run(seed, nphases=3):
         seen.append((d['status'], (d['running_phase_state'] or {}).get('name')))
         rp = d['running_phase_state']
         if rp:
-          latest[k] = (rp.get('name'), ((rp.get('measurements') or {}).get('last') or {}).get('measured_value'))
+          ms = rp.get('measurements') or {}
+          latest[k] = (rp.get('name'), (ms.get('last') or {}).get('measured_value'), (ms.get('ld') or {}).get('measured_value'))
         if d['status'] == 'COMPLETED':
           break
         ev.wait()
